@@ -2112,6 +2112,7 @@ func (c ipamClient) incrementHandle(ctx context.Context, handleID string, blockC
 }
 
 func (c ipamClient) decrementHandle(ctx context.Context, handleID string, blockCIDR net.IPNet, num int, obj *model.KVPair) error {
+	callerProvidedHandle := obj != nil
 	for i := range datastoreRetries {
 		var err error
 		// Query the handle if either of these conditions is true:
@@ -2127,6 +2128,12 @@ func (c ipamClient) decrementHandle(ctx context.Context, handleID string, blockC
 
 		_, err = handle.decrementBlock(blockCIDR, num)
 		if err != nil {
+			if i == 0 && callerProvidedHandle {
+				// The caller's copy of the handle may have been read before the addresses being
+				// released were assigned.  Retry with an up-to-date copy rather than leaving the
+				// handle over-counting.
+				continue
+			}
 			return err
 		}
 
